@@ -4,6 +4,7 @@ import Vore.Driver.ParseRes
 import Vore.Spec.Search
 import Vore.Lemmas.Replace
 import Vore.Lemmas.GenR
+import Vore.Lemmas.SimR
 /-!
 # Driver — line protocol: one case per input line, one result line per case.
 `<id> TAB <op> TAB <field> …`
@@ -38,6 +39,19 @@ def specOk (text : Bytes) (cmds : List (Cmd × GenState)) (groups : List (List M
     | .find amt e => chk amt e
     | .replace amt e _ => chk amt e
     | _ => acc) (0, true)
+
+/-- decidable form of `WfR` -/
+def wfRB : Spec.RExpr → Bool
+  | .empty => true
+  | .seq a b => wfRB a && wfRB b
+  | .atom _ => true
+  | .backref _ => true
+  | .call _ _ => true
+  | .star _ _ body => wfRB body
+  | .branch l r => wfRB l && wfRB r
+  | .dec _ body => wfRB body
+  | .sub _ _ body _ => wfRB body
+  | .inl neg items => neg || !items.isEmpty
 
 /-- the two-pass generator (resolve, then emit) applied to every command; `none` where resolution
 rejects.  Returns the bytecode commands with the code fields replaced. -/
@@ -75,6 +89,8 @@ def spec2Ok (text : Bytes) (cmds : List Cmd) (groups : List (List Match)) : Nat 
         match Spec.resolveBody G e with
         | none => acc
         | some r =>
+          -- the hypotheses of C01_refines_calls are re-checked on every case
+          if !(decide (UniqueSubs r) && wfRB r) then (acc.1 + 1, false) else
           match Spec.findAllR text procFuel 64 r with
           | some A => (acc.1 + 1, acc.2 && sameMatches ((Spec.window amt A).map eraseRepl) (g.map eraseRepl))
           | none => acc
